@@ -277,11 +277,15 @@ def _ods_text(element, location):
         if child.tag == _TEXT_S:
             blank_count_text = child.attrib.get(_TEXT_C, "1")
             try:
-                result += " " * _ods_count(blank_count_text)
+                blank_count = _ods_count(blank_count_text)
+                if blank_count < 0:
+                    raise ValueError("negative count")
             except ValueError:
                 raise errors.DataFormatError(
-                    "text:c is %s but must be an integer" % _compat.text_repr(blank_count_text), location
+                    "text:c is %s but must be an integer of at least 0" % _compat.text_repr(blank_count_text),
+                    location,
                 )
+            result += " " * blank_count
         elif child.tag == _TEXT_TAB:
             result += "\t"
         elif child.tag == _TEXT_LINE_BREAK:
